@@ -4,6 +4,10 @@
      SWOR count,via,state | samples | perm = result
      SWR count,via,state | samples | picks = result
      SWRW count,via,state | samples | weights(hex) | picks = result
+   extension (stages "ball-twin" and "gboost-model"):
+     BALLX n,radius,state | x0 | u (the normal deviates) | z,nrm,unif = x      (all binary64 values as C %a hex)
+     GBS kind,seed,ratio,round | samples | losses by sample index | gradient magnitudes by sample index | oracle = result
+     GBKINDS off,subsample,bootstrap,wei_loss,wei_grad = 5
    recomputes every result with the extracted model from the inputs and the oracle answers of the C++ standard
    library (MISMATCH lines), checks the oracle contracts that the theorems assume (ORACLE lines, counted as
    mismatches) and applies the verified checkers of C12_Defs to what the implementation returned (PROPFAIL). *)
@@ -25,6 +29,15 @@ let string_of_pairs (l : (z list * z list) list) : string =
 let rec zlist_eq (a : z list) (b : z list) = list_eqb a b
 let pairs_eq a b = List.length a = List.length b && List.for_all2 (fun (a1, a2) (b1, b2) -> zlist_eq a1 b1 && zlist_eq a2 b2) a b
 
+let floats s = List.map (fun t -> float_of_string (String.trim t)) (List.filter (fun t -> String.trim t <> "") (String.split_on_char ',' s))
+let bits = Int64.bits_of_float
+(* Coq's primitive floats are extracted to Float64.t of coq-core.kernel (= OCaml's native binary64 floats) *)
+let ff = Float64.of_float
+let tf = Float64.to_float
+let ffl = List.map ff
+let hexl l = String.concat "," (List.map (Printf.sprintf "%h") l)
+let ball_checked = ref 0
+let gb_checked = ref 0
 let ints s = List.map (fun t -> int_of_string (String.trim t)) (List.filter (fun t -> String.trim t <> "") (String.split_on_char ',' s))
 
 let () =
@@ -118,10 +131,75 @@ let () =
                       | Some true -> ()
                       | _ -> report "PROPFAIL" line (Printf.sprintf "returned index %d has zero weight (or is no member)" (int_of_z x))) impl
                 end
+              | "BALLX" ->
+                (* the element-wise statement of sample_from_ball recomputed by the binary64 twin from the oracle inputs of the
+                   run (deviates, z = pow(unif, 1/n), the Eigen norm), compared bit for bit; the executable hypotheses of
+                   C12_fl_ball_twin (ball_ok: finite, radius > 0, 0 <= z <= 1, nrm > 0, no underflow; squares_nu) are evaluated *)
+                let (n, radius) = (match String.split_on_char ',' f.(0) with a :: b :: _ -> (int_of_string (trim a), float_of_string (trim b)) | _ -> failwith "args") in
+                let x0 = floats f.(1) and u = floats f.(2) in
+                let (z, nrm) = (match floats f.(3) with a :: b :: _ -> (a, b) | _ -> failwith "z,nrm") in
+                incr total; incr ball_checked;
+                if List.length x0 <> n || List.length u <> n then report "MISMATCH" line "x0 / u do not have n components";
+                let model = List.map tf (ball_twin (ffl x0) (ffl u) (ff radius) (ff z) (ff nrm)) in
+                if trim rhs = "nonfinite" then report "MISMATCH" line ("implementation returned a non-finite point; twin: " ^ hexl model)
+                else begin
+                  let impl = floats rhs in
+                  if List.length impl <> List.length model || not (List.for_all2 (fun a b -> bits a = bits b) impl model) then
+                    report "MISMATCH" line ("binary64 twin of x0 + radius * z * u / nrm: " ^ hexl model)
+                end;
+                if not (ball_ok (ffl x0) (ffl u) (ff radius) (ff z) (ff nrm)) then
+                  report "ORACLE" line "hypothesis ball_ok of C12_fl_ball_twin is false on the observed values (non-finite value, radius <= 0, z outside [0,1], nrm <= 0 or an underflow)";
+                if not (squares_nu (ffl u)) then report "ORACLE" line "hypothesis squares_nu is false: a square u_k * u_k underflowed or is not finite"
+              | "GBKINDS" ->
+                (match ints f.(0) with
+                 | [a; b; c; d; e] ->
+                   if [a; b; c; d; e] <> List.map int_of_z [k_off; k_subsample; k_bootstrap; k_wei_loss; k_wei_grad] then
+                     report "MISMATCH" line "the enumerators of gboost_subsample differ from the model's k_off .. k_wei_grad"
+                 | _ -> report "MISMATCH" line "GBKINDS: five values expected")
+              | "GBS" ->
+                let (kind, seed, ratio) = (match String.split_on_char ',' f.(0) with
+                    | a :: b :: c :: _ -> (int_of_string (trim a), int_of_string (trim b), float_of_string (trim c)) | _ -> failwith "args") in
+                let samples = zlist_of_string f.(1) in
+                let losses = floats f.(2) and gmag = floats f.(3) in
+                let oracle = if Array.length f > 4 then zlist_of_string f.(4) else [] in
+                let n = List.length samples in
+                let zk = z_of_int kind and zn = z_of_int n in
+                incr total; incr gb_checked;
+                let call = int_of_z (gb_call zk) in
+                (* layout of the weight loops / allocation (translated kernels) *)
+                List.iter (fun i -> if not (gb_layoutb zk zn (z_of_int i)) then
+                              report "MISMATCH" line (Printf.sprintf "weight loop layout / allocation inconsistent at i=%d (translated kernels)" i)) [0; n - 1];
+                let tbl = [[]; ffl losses] in
+                let w = gb_weights zk samples tbl (ffl gmag) in
+                let ratio = ff ratio in
+                let perm = if call = 1 then oracle else [] and picks = if call = 1 then [] else oracle in
+                if call = 1 && not (perm_okb perm (nat_of_int n)) then report "ORACLE" line "std::shuffle's answer is not a permutation of 0..n-1";
+                if not (gb_contractb zk ratio samples w picks) then
+                  report "ORACLE" line "contract of the distribution violated (uniform draw out of range / zero-weight position drawn / number of draws != count)";
+                let model = gb_sample (shuffle_by (fun _ _ -> perm)) (z_of_int seed) O zk ratio samples picks in
+                let impl = zlist_of_string rhs in
+                if not (zlist_eq model impl) then report "MISMATCH" line ("model of gboost::sampler_t::sample: " ^ string_of_zlist model);
+                let count = int_of_z (gb_count ratio zn) in
+                (* the proved clauses on what the implementation returned *)
+                incr propchecks;
+                if kind = int_of_z k_off then begin
+                  if not (zlist_eq impl samples) then report "PROPFAIL" line "off: the result is not the input"
+                end else begin
+                  if List.length impl <> count then report "PROPFAIL" line (Printf.sprintf "%d samples returned, count (binary64 product, truncated) = %d" (List.length impl) count);
+                  if not (sortedb impl) then report "PROPFAIL" line "result not sorted";
+                  if not (n * List.length impl > 250000 || membersb impl samples) then report "PROPFAIL" line "a returned index is not a member of the input";
+                  if kind = int_of_z k_subsample && not (strictb impl) then report "PROPFAIL" line "subsample: repeated index";
+                  if kind = int_of_z k_wei_loss || kind = int_of_z k_wei_grad then begin
+                    let row = Array.of_list (if kind = int_of_z k_wei_loss then losses else gmag) in
+                    List.iter (fun x -> let i = int_of_z x in
+                                if not (i >= 0 && i < Array.length row && row.(i) > 0.0) then
+                                  report "PROPFAIL" line (Printf.sprintf "returned sample %d has a zero weight (its own loss / gradient magnitude)" i)) impl
+                  end
+                end
               | _ -> ())
            with Failure m | Invalid_argument m -> report "MISMATCH" line ("driver could not parse/evaluate the line: " ^ m)
               | Not_found -> report "MISMATCH" line "driver: Not_found")
          | _ -> ())
     done
   with End_of_file -> ());
-  Printf.printf "MODEL-DONE checked=%d mismatches=%d propchecks=%d\n" !total !mism !propchecks
+  Printf.printf "MODEL-DONE checked=%d mismatches=%d propchecks=%d ball=%d gboost=%d\n" !total !mism !propchecks !ball_checked !gb_checked
